@@ -103,5 +103,6 @@ Definition table : list erow :=
     mkRow "typed_bucket.go" "TypedBucket.SetStringList" 0 DLatch "if err != nil";
     mkRow "typed_bucket.go" "TypedBucket.SetStringList" 1 DLatch "if listBucket.SetListEntry().Err != nil";
     mkRow "typed_bucket.go" "TypedBucket.copyImpl" 0 DReturn "if err != nil";
-    mkRow "typed_bucket.go" "TypedBucket.copyImpl" 1 DReturn "if err != nil"
+    mkRow "typed_bucket.go" "TypedBucket.copyImpl" 1 DReturn "if err != nil";
+    mkRow "typed_bucket.go" "TypedBucket.setMarshaled" 0 DOther "if bucket.Err != nil"
   ].
